@@ -52,6 +52,9 @@ CLAIMS = {
  'C14': ("Unbounded theorems (iff): SuiteConfig.Validate succeeds exactly for usable suites and OCRAInput.Validate exactly for admissible inputs (the property's sentence as a Prop); "
          "generation/validation get past admission exactly under both.",
          "Out-of-enum challenge formats / password hashes are outside the property; the model still mirrors the code there and the harness compares them.", "6 C14"),
+ 'C20': ("Unbounded theorems: DeriveRFC4226Wasm = deriveRFC4226 for every key, counter, code length and hash value (its own ten-digit modulus and its FormatUint+padding formatter are proved equal to the native table entry and formatter); ValidateOTPWasm and both window loops of the binding accept exactly what the native loops accept; hence each of the five callbacks returns the native code / verdict / URL text for well-typed arguments (integral or fractional numbers with integer part in the stated ranges), "
+         "every call that is not well typed is answered with a string starting with 'error: ', and (finite, on the export table regenerated from otp-js/src/index.js and wasm/main.go) every exported name is bound to the registered global of the same name.",
+         "JavaScript values are modelled by type and, for numbers, by what syscall/js Value.Int() returns under Node (truncation; NaN/infinities/out-of-range give MinInt64 — observed, not derived); the freshly built module is run under Node through globalThis and through a copy of the package's own index.js and compared with the model and with the native model on every run. Strings cross the boundary as UTF-8; only valid UTF-8 is exercised. 'leaves the module usable' is checked by the harness (one module instance answers the whole stream).", "6 C20"),
 }
 
 def main():
